@@ -125,7 +125,8 @@ func HarnessC09Dispatch(a []int) {
 // HarnessC09Epoch: a = {heartbeat interval in s (3 < timeout 5 < 7), heartbeat behaviour, reconnect
 // behaviour}. The real serve() goroutine against a gateway goroutine.
 //   heartbeat: 0 answered OK, 1 silence, 2 error status (symbolic, non-zero), 3 answer for a foreign
-//              channel only, 4 disconnect request for the current channel instead
+//              channel only, 4 disconnect request for the current channel instead, 5 the first one
+//              answered twice and none afterwards
 //   reconnect: 0 accepted (new channel symbolic), 1 busy then accepted, 2 refused, 3 silence
 func HarnessC09Epoch(a []int) {
 	hbSec, hbMode, rcMode := a[0], a[1], a[2]
@@ -166,6 +167,13 @@ func HarnessC09Epoch(a []int) {
 					if !hbAnswered {
 						sock.in <- &knxnet.DiscReq{Channel: r.Channel}
 					}
+				case 5:
+					// the first heartbeat is answered twice (a duplicated datagram), then the gateway is gone:
+					// the stale duplicate must not make the second heartbeat succeed
+					if !hbAnswered {
+						sock.in <- &knxnet.ConnStateRes{Channel: r.Channel, Status: 0}
+						sock.in <- &knxnet.ConnStateRes{Channel: r.Channel, Status: 0}
+					}
 				}
 				hbAnswered = true
 			case *knxnet.ConnReq:
@@ -204,7 +212,11 @@ func HarnessC09Epoch(a []int) {
 	hb := int64(conn.config.HeartbeatInterval)
 	resend, timeout := int64(conn.config.ResendInterval), int64(conn.config.ResponseTimeout)
 	// let the first heartbeat and a possible reconnect play out
-	verifSleep(hb + 2*timeout + 3*resend)
+	failAt := hb // the heartbeat that fails starts here
+	if hbMode == 5 {
+		failAt = 2 * hb
+	}
+	verifSleep(failAt + 2*timeout + 3*resend)
 	verifQuiesce()
 	// first connection-state request: for the current channel, no later than one heartbeat interval
 	verifAssert("C09.epoch.heartbeat_sent", len(sock.log) > 1 && delivered == 1)
@@ -218,7 +230,7 @@ func HarnessC09Epoch(a []int) {
 		case *knxnet.ConnReq:
 			if reconnects == 0 {
 				// the reconnect follows the failed heartbeat at once: at the latest when its response timeout expires
-				verifAssert("C09.epoch.reconnect_prompt", sock.stamps[i] <= hb+timeout)
+				verifAssert("C09.epoch.reconnect_prompt", sock.stamps[i] <= failAt+timeout)
 			}
 			reconnects++
 		case *knxnet.ConnStateReq:
